@@ -131,24 +131,30 @@ def reload (k : Nat → Nat) (f : Nat) (r : Rec) : (Nat → Nat) × Rec :=
     (if k f = 0 then k else upd k f new, r')                              -- EPOLL_CTL_MOD (ENOENT ignored)
   else (upd k f 0, r')                                                    -- EPOLL_CTL_DEL
 
+/-- `ObjectPool::alloc`: the most recently parked block, else a fresh one -/
+def popBlock (s : State) : State × Nat :=
+  match s.freeList with
+  | b :: rest => ({ s with freeList := rest }, b)
+  | [] => ({ s with nBlocks := s.nBlocks + 1 }, s.nBlocks)
+
+/-- `ObjectPool::free`: the block is parked at the head of the free list -/
+def pushBlock (s : State) (b : Nat) : State := { s with freeList := b :: s.freeList }
+
 /-- `refFdSharedData(f)` on behalf of event `e` -/
 def refFd (s : State) (f e : Nat) : State :=
   match s.recs f with
   | some r => s.setRec f (some { r with ref := r.ref + 1, holders := e :: r.holders })
   | none =>
-    let s1 : State := match s.freeList with
-      | b :: rest => { s with freeList := rest, serial := s.serial + 1 }.setRec f
-          (some { ref := 1, serial := s.serial + 1, block := b, holders := [e], inst := s.gen f })
-      | [] => { s with nBlocks := s.nBlocks + 1, serial := s.serial + 1 }.setRec f
-          (some { ref := 1, serial := s.serial + 1, block := s.nBlocks, holders := [e], inst := s.gen f })
-    s1
+    let p := popBlock s
+    { p.1 with serial := s.serial + 1 }.setRec f
+      (some { ref := 1, serial := s.serial + 1, block := p.2, holders := [e], inst := s.gen f })
 
 /-- `unrefFdSharedData(f)` on behalf of event `e` -/
 def unrefFd (s : State) (f e : Nat) : State :=
   match s.recs f with
   | none => s
   | some r =>
-    if r.ref = 1 then { s with freeList := r.block :: s.freeList }.setRec f none
+    if r.ref = 1 then (pushBlock s r.block).setRec f none
     else s.setRec f (some { r with ref := r.ref - 1, holders := r.holders.erase e })
 
 /-- `initialize`: drop the reference on the old descriptor (`detach`), take one on the new -/
@@ -229,18 +235,24 @@ structure Wait where
   gen    : Nat → Nat              -- ghost: which open file each descriptor was
   ready  : List (Nat × Nat)       -- ghost: the ready list itself
 
-/-- `FdEvent::onEvent(m)` for event `e` while the ready entry `(f, m)` is dispatched -/
-def onEvent (w : Wait) (f m : Nat) (s : State) (e : Nat) : State :=
+/-- entry of `FdEvent::onEvent(m)` for event `e` while the ready entry `(f, m)` is dispatched:
+the state in which the user callback starts, and whether there is a callback at all -/
+def enterEvent (w : Wait) (f m : Nat) (s : State) (e : Nat) : State × Bool :=
   let v := s.evs e
-  if !v.alive then s.emit (.bad .deadEvent)
-  else if !hasBit v.mask m then s
+  if !v.alive then (s.emit (.bad .deadEvent), false)
+  else if !hasBit v.mask m then (s, false)
   else
     let s1 := if v.oneshot then (disableEv s e).1 else s
     let c : Cb := { e := e, m := m, dispFd := f, evFd := v.fd, aliveAt := v.alive, enabledAt := v.enabled,
                     meets := hasBit v.mask m, instOk := s.gen v.fd == w.gen v.fd,
                     inReady := w.ready.contains (f, m), oneshot := v.oneshot,
                     enabledInCb := (s1.evs e).enabled }
-    runScript (s1.emit (.cb c)) v.script
+    (s1.emit (.cb c), true)
+
+/-- `FdEvent::onEvent(m)`: one-shot disables itself first, then the user callback runs -/
+def onEvent (w : Wait) (f m : Nat) (s : State) (e : Nat) : State :=
+  let r := enterEvent w f m s e
+  if r.2 then runScript r.1 (s.evs e).script else r.1
 
 /-- the record a dispatch may use: present in the map and not created after the wait returned -/
 def findRec (w : Wait) (s : State) (f : Nat) : Option Rec :=
